@@ -222,7 +222,7 @@ theorem exec_matrixBlock (f : Nat) (k : ActKind) (n : String) (body : Block) (s 
     execOperand (f + 1) k (.matrixBlock (.str n) body) s =
       match execBlock f body
         { s with vm := { s.vm.setReg .name (.str n) with matrix := some ⟨h, w, []⟩ } } with
-      | (.normal, s2) => (s2.setReg .operand (.operand .matrixLight)).device
+      | (.normal, s2) => ((s2.setReg .name (.str n)).setReg .operand (.operand .matrixLight)).device
           (if k == .set then Vm.State.doColor else Vm.State.doPower)
       | r => r := by
   have hl' : (s.vm.setReg .name (.str n)).light? ((s.vm.setReg .name (.str n)).regs .name) = some l := by
